@@ -247,6 +247,27 @@ PROPS["C18"] = dict(
                  "the fresh-parser outcome is the reference: a statement a fresh parser mis-parses the same way is not detected here"],
 )
 
+PROPS["C06"] = dict(
+    simulated=True,
+    level="exploration",
+    instrument=["triple/triple.go", "triple/node/node.go", "triple/predicate/predicate.go", "triple/literal/literal.go"],
+    instr_flags=["-pools", "-skipinit"],
+    budget=dict(quick=25, thorough=600),
+    rule="3-9 values per case (nodes, predicates, objects, triples over the whole vocabulary incl. its near-misses: type/id boundary pair, literals whose value bytes coincide across types, "
+         "one instant in two zones, int64 extremes and neighbours beyond 2^53, floats closer than 1e-6, +Inf, empty identifiers, anchors at the zero time / Unix epoch / year 9999). "
+         "Reference: each value's UUID in a fresh state (pools emptied, nothing hashed before). Then 2-4 tasks call UUID() on 2-6 of these values each (with repeats) under the seeded "
+         "scheduler, with yield points before every statement of triple.go / node.go / predicate.go / literal.go and every sync.Pool of these packages replaced by a pool the simulator owns "
+         "(one LIFO free list shared by all tasks: a call inherits the buffer the previous call - of any task - released; reset per run). Oracles: every UUID computed by any task at any "
+         "point equals the fresh-state UUID of that value (same on every call, in every goroutine, whatever was hashed before or is being hashed meanwhile); over the values of a case UUID "
+         "equality and Triple.Equal coincide with structural equality (kind and components, anchors as instants); no panic. Non-trivial: at least one scheduling decision with >= 2 runnable "
+         "tasks and more than two calls; distinct = distinct (values, call lists, pick sequence)",
+    components_real=["triple, triple/node, triple/predicate, triple/literal UUID / Equal code (real code, instrumented scratch copy, sync.Pool -> simulator-owned pool)"],
+    components_stub=["tasks calling UUID() (harness)", "seeded scheduler in a synctest bubble (x/sim)", "sim.Pool: deterministic shared free list in place of sync.Pool's per-P caches"],
+    assumptions=["'in every process' is outside a single-process simulator: nothing in these functions reads process state, which is checked by reading, not by this run",
+                 "sim.Pool shares buffers more eagerly than sync.Pool (any released buffer goes to the next Get of any task): a superset of the sharing a real pool can show",
+                 "pairs of values are sampled from a fixed vocabulary; injectivity over all values is input enumeration and not claimed"],
+)
+
 PROPS["C16"] = dict(
     simulated=True,
     level="exploration",
@@ -345,3 +366,8 @@ MANIFEST_TEXT["C16"] = dict(
     text="seeded exploration of inputs x channel capacities x producer/consumer interleavings with the lexer goroutine instrumented: termination, closure, goroutine exit and structural token oracles on every run, token sequence identical to a sequential reference run",
     note="trusted base: x/sim scheduler + synctest bubble accounting, the instrumenter, the earliest-match embedding; inputs are sampled; the token classes are the implementation's",
     technique="deterministic simulation: the lexer's producer goroutine (instrumented scratch copy) against a consumer task under the seeded scheduler over all channel capacities; metamorphic oracle against a sequential reference run plus structural oracles; bubble-end goroutine accounting")
+
+MANIFEST_TEXT["C06"] = dict(
+    text="seeded exploration of concurrent UUID() calls over shared scratch-buffer pools with the value packages instrumented: every UUID computed under any interleaving and call history equals the value's fresh-state UUID; UUID equality and Triple.Equal coincide with structural equality over the sampled values",
+    note="trusted base: x/sim scheduler, the instrumenter incl. its sync.Pool -> sim.Pool rewrite, the structural key functions; values are sampled from a fixed vocabulary; other processes are out of reach",
+    technique="deterministic simulation: tasks hashing values concurrently under the seeded scheduler, sync.Pool replaced by a simulator-owned shared free list, differential oracle against fresh-state UUIDs plus structural-equality oracle")
